@@ -47,7 +47,7 @@ def strings(maxlen):
 
 KIND_VALUES = {"str": "s p'q\"$a", "int": I(7), "float": {"f": "1.5"}, "bool": True, "null": None, "list": L(I(1), "x y"), "tuple": T(("q", I(1)))}
 KIND_RENDER = {"str": "s p'q\"$a", "int": "7", "float": "1.5", "bool": "true"}
-# a constraint value is one more kind of field that is skipped (env) / left out (flags); only as a field, not as a list item
+# a constraint value is one more kind of field / list item that is skipped (env) / left out (flags)
 FIELD_KIND_VALUES = dict(KIND_VALUES, constraint={"k": 1})
 
 
@@ -100,10 +100,12 @@ def list_item_order_cases(maxitems):
     """a list-valued flag whose items are of every kind in every order: scalars become one
     `--name value` pair each, NULL the bare flag, nested lists and tuples are left out — and
     leaving one out must not affect the items after it. Also through a tuple in exec args."""
-    kinds = list(KIND_VALUES)
+    kinds = list(FIELD_KIND_VALUES)
     for n in range(1, maxitems + 1):
         for combo in itertools.product(kinds, repeat=n):
-            w = T(("item", L(*[KIND_VALUES[k] for k in combo])), ("z", "last"))
+            if "constraint" in combo and n > 2:
+                continue        # the constraint kind in lists of up to 2 items
+            w = T(("item", L(*[FIELD_KIND_VALUES[k] for k in combo])), ("z", "last"))
             argv = []
             for k in combo:
                 if k in KIND_RENDER:
